@@ -75,24 +75,34 @@ Fixpoint pull (q : list page) (next : N) (acc : list N) (fin : bool) : list page
       else (q, next, acc, fin)
   end.
 
+(* The established path (nextSeq known) for one segment [pg] (sequence number, bytes, source, end flag):
+   queue it when it lies ahead of nextSeq, otherwise drop what was already delivered, deliver the rest and
+   whatever queued segments became contiguous.  [syn]/[finflag] = SYN / FIN bit of the packet. *)
+Definition half_data (h : half) (nx : N) (pg : page) (syn finflag : bool) : half * list N * bool :=
+  let deliver (b : list N) :=
+      let '(q', nx', bytes, fin) := pull (h_queue h) (nx + lenN b) b (pg_end pg) in
+      (mkHalf (Some (if finflag then nx' + 1 else nx')) q' (h_closed h) (h_last h), bytes, fin) in
+  if nx <? pg_seq pg then (mkHalf (h_next h) (insert_page (h_queue h) pg) (h_closed h) (h_last h), [], false)
+  else
+    let b := dropN (nx - pg_seq pg) (pg_bytes pg) in
+    match b with
+    | [] => if pg_end pg || syn then deliver b else (h, [], false)
+    | _ => deliver b
+    end.
+
 (* result of handing one accepted packet to an open half: new half, delivered bytes (one ReassembledSG
    call, attributed to the packet that carried the first byte = the current packet), end of this half *)
 Definition half_packet (h : half) (p : packet) : half * list N * bool :=
   let e := p_fin p || p_rst p in
-  let queue := (mkHalf (h_next h) (insert_page (h_queue h) (mkPage (p_seq p) (p_data p) (pref_of p) e (p_ts p))) (h_closed h) (h_last h), [], false) in
-  let deliver (start : N) (b : list N) :=
-      let '(q', nx, bytes, fin) := pull (h_queue h) (start + lenN b) b e in
-      (mkHalf (Some (if p_fin p then nx + 1 else nx)) q' (h_closed h) (h_last h), bytes, fin) in
+  let pg := mkPage (p_seq p) (p_data p) (pref_of p) e (p_ts p) in
   match h_next h with
-  | None => if p_syn p then deliver (p_seq p + 1) (p_data p) else queue
-  | Some nx =>
-      if nx <? p_seq p then queue
-      else
-        let b := dropN (nx - p_seq p) (p_data p) in
-        match b with
-        | [] => if e || p_syn p then deliver nx b else (h, [], false)
-        | _ => deliver nx b
-        end
+  | None =>
+      if p_syn p then
+        (* the SYN consumes one sequence number; nextSeq := seq + 1 *)
+        half_data (mkHalf (Some (p_seq p + 1)) (h_queue h) (h_closed h) (h_last h)) (p_seq p + 1)
+                  (mkPage (p_seq p + 1) (p_data p) (pref_of p) e (p_ts p)) true (p_fin p)
+      else (mkHalf (h_next h) (insert_page (h_queue h) pg) (h_closed h) (h_last h), [], false)
+  | Some nx => half_data h nx pg (p_syn p) (p_fin p)
   end.
 
 (* flushClose: segments queued before [ts - timeout] ([old] = that test on the time a page was queued) are
@@ -215,18 +225,11 @@ Definition seg := (N * list N)%type.
 
 Definition seg_page (s : seg) : page := mkPage (fst s) (snd s) (0, 0, 0) false 0.
 
+(* one data segment through the SAME function the import model uses for an established half *)
 Definition half_seg (h : half) (s : seg) : half * list N :=
   match h_next h with
   | None => (h, [])
-  | Some nx =>
-      if nx <? fst s then (mkHalf (h_next h) (insert_page (h_queue h) (seg_page s)) (h_closed h) (h_last h), [])
-      else
-        let b := dropN (nx - fst s) (snd s) in
-        match b with
-        | [] => (h, [])
-        | _ => let '(q', nx', bytes, _) := pull (h_queue h) (nx + lenN b) b false in
-               (mkHalf (Some nx') q' (h_closed h) (h_last h), bytes)
-        end
+  | Some nx => let '(h', out, _) := half_data h nx (seg_page s) false false in (h', out)
   end.
 
 Fixpoint reasm_from (h : half) (l : list seg) : list N :=
